@@ -18,7 +18,14 @@ RULE = ("structure-aware enumeration split over the shards.  Integers: every byt
         "representations), then every tag byte 0..255 at the three legal lengths, every length 0..max+2, first and "
         "second coordinates at 0, 1, p-1, p, p+1, 2^bits-1, 2^(8n)-1, abscissae without a root, flipped sign bit, "
         "second coordinate off the curve, v+p, single bit flips, neutral-element encodings with trailing bytes, points "
-        "of order two, random strings.  History part: reference encodings of fixed points / elements per parameter set "
+        "of order two, random strings.  Prior content of the output object: besides a poison pattern, every decoder is "
+        "also run into an object that already holds a valid object related to the bytes (points: the point named by the "
+        "first coordinate, its negative, the neutral element, another point, the library's own decode of the valid encoding, "
+        "projective forms in the thorough tier; field / extension / target-group elements: the element the bytes start or "
+        "end with, a congruent one, the conjugate, another element) with 'tag | first coordinate | junk', valid encodings "
+        "with trailing bytes and truncations at every length 0..max+2, at 1 + k*unit and k*unit beyond the longest encoding "
+        "(k up to 2x the full form, 3x in the thorough tier), wrong tags at the legal lengths, second coordinates off the "
+        "curve, coordinates mixed from two points, and valid strings of other objects.  History part: reference encodings of fixed points / elements per parameter set "
         "from a fresh context, re-encoded and decoded after every other selection immediately before (prime, pairing D/M "
         "twist, binary, Edwards) and after random longer histories.  A case is one call sequence; distinct = distinct (function, parameter set, "
         "class, bytes)")
@@ -34,6 +41,9 @@ ASSUMPTIONS = ["verif/model/codec.py describes the wire formats correctly (self-
                "encodings are a function of (parameter set, object) only: the bytes written and the objects decoded in a context "
                "with any history of earlier selections must equal those of a freshly initialised context holding only that "
                "selection; the model's sign convention per curve kind is the one observed in the fresh context",
+               "a decoder is a function of (parameter set, bytes): what the output object held before the call (a valid "
+               "object written at struct level by the harness, or left there by an earlier decode) changes neither the "
+               "accept / reject verdict nor the decoded value",
                "a write into a longer buffer must succeed with the encoding at the documented position "
                "(integers right-aligned zero-padded, points at the front)"]
 
@@ -100,10 +110,13 @@ class Env(object):
 
 
 def run(ctx, part):
+    import time
+    t0 = time.process_time()
     E = Env(ctx)
     R = E.R
     {"bn": run_bn, "fp": run_fp, "ep": run_ep, "px": run_px, "eb": run_eb, "ed": run_ed,
      "hist": run_hist}[part](E)
+    ctx.note("cpu_seconds_per_shard", {"%s/%s/%d" % (part, ctx.cfg, ctx.shard): round(time.process_time() - t0, 1)})
     ctx.note("functions_exercised", sorted(R.fn_seen))
     ctx.note("error_codes_seen", {str(k): v for k, v in R.err_codes.items()})
     for k, v in E.notes.items():
@@ -429,9 +442,11 @@ def run_fp(E):
         a2 = R.fp_new()
 
         # --------------------------------------------------------------------------- fp_read_bin
-        def fp_read(cls, bs, name=name, p=p, n=n, a=a):
+        def fp_read(cls, bs, name=name, p=p, n=n, a=a, prior=None):
             def body(k):
                 R.fp_put_raw(a, top)                       # poison: a non-canonical pattern
+                if prior is not None:                      # ... or a valid element related to the bytes
+                    R.fp_put(a, prior)
                 pb = E.put(bs)
                 r = R.call("fp_read_bin", a, pb, len(bs))
                 v = int.from_bytes(bs, "big")
@@ -470,6 +485,24 @@ def run_fp(E):
         for ln in (2 * n, 2 * n + 1, 3 * n):
             if E.mine():
                 fp_read("len>n", bytes(ln - n) + rng.randrange(p).to_bytes(n, "big"))
+        # the output already holds the element the bytes start / end with (or one congruent to them)
+        for _ in range(ctx.n(2, 10)):
+            v = rng.randrange(p)
+            vb = v.to_bytes(n, "big")
+            for ln in (n + 1, 2 * n - 1, 2 * n, 2 * n + 1, 3 * n, 4 * n):
+                if E.mine():
+                    fp_read("len>n|out=same", vb + rng.getrandbits(8 * (ln - n)).to_bytes(ln - n, "big"), prior=v)
+                if E.mine():
+                    fp_read("len>n|out=same", bytes(ln - n) + vb, prior=v)
+            for ln in (0, 1, n - 1):
+                if E.mine():
+                    fp_read("len<n|out=same", vb[:ln], prior=v)
+                if E.mine():
+                    fp_read("len<n|out=same", vb[n - ln:], prior=v)
+            if v + p <= top and E.mine():
+                fp_read("random>=p|out=same-mod-p", (v + p).to_bytes(n, "big"), prior=v)
+            if E.mine():
+                fp_read("random<p|out=other", vb, prior=rng.randrange(p))
 
         # -------------------------------------------------------------------------- fp_write_bin
         def fp_write(cls, v, name=name, p=p, n=n, a=a, a2=a2):
@@ -586,10 +619,12 @@ def run_fp(E):
             def wr_args(buf, ln, obj):
                 return [buf, ln, obj] + ([0] if haspack else [])
 
-            def fpx_read(cls, bs, deg=deg, pre=pre, x=x, full=full, name=name, p=p, n=n, wr_args=wr_args):
+            def fpx_read(cls, bs, deg=deg, pre=pre, x=x, full=full, name=name, p=p, n=n, wr_args=wr_args, prior=None):
                 def body(k):
                     for i in range(deg):
                         R.fp_put_raw(x + i * R.fp_sz, top)
+                    if prior is not None:
+                        R.fpx_put(x, prior)
                     pb = E.put(bs)
                     r = R.call(pre + "_read_bin", x, pb, len(bs))
                     cs = [int.from_bytes(bs[i * n:(i + 1) * n], "big") for i in range(deg)] if len(bs) == full else None
@@ -627,6 +662,19 @@ def run_fp(E):
                     continue
                 if E.mine():
                     fpx_read("len", (elem() + elem())[:ln])
+            # the output already holds the element the bytes start with
+            cs0 = [rng.randrange(p) for _ in range(deg)]
+            eb0 = b"".join(c.to_bytes(n, "big") for c in cs0)
+            for ln in sorted(set([n, full - n, full - 1, full + 1, full + n, 2 * full - n, 2 * full, 3 * full])):
+                if ln == full or ln in packed_lens or ln <= 0:
+                    continue
+                if E.mine():
+                    fpx_read("len|out=same", (eb0 + elem() + elem())[:ln], prior=cs0)
+            pos = rng.randrange(deg)
+            if cs0[pos] + p <= top and E.mine():
+                fpx_read("coef>=p|out=same-mod-p", eb0[:pos * n] + (cs0[pos] + p).to_bytes(n, "big") + eb0[(pos + 1) * n:], prior=cs0)
+            if E.mine():
+                fpx_read("valid|out=other", elem(), prior=cs0)
 
             def fpx_write(cls, cs, deg=deg, pre=pre, x=x, y=y, full=full, name=name, p=p, n=n, wr_args=wr_args, haspack=haspack):
                 def body(k):
@@ -748,17 +796,28 @@ class EpIO(PointIO):
         return ("bad", "coord=%d" % coord), False
 
 
-def read_case(io, cls, bs, member, note=None):
-    """decode arbitrary bytes: library accepts <=> model accepts; accepted objects are valid and re-encode to bs"""
+def read_case(io, cls, bs, member, note=None, prior=None):
+    """decode arbitrary bytes: library accepts <=> model accepts; accepted objects are valid and re-encode to bs.
+    prior = None: the output object holds a poison pattern; prior = (name, what, rep): the output object holds a valid
+    object before the call (what = model point / None for the neutral element, written at struct level in
+    representation rep; name 'redecode': what = bytes the library itself decodes into the output first - workload only).
+    The verdict never depends on the prior content: a decoder is a function of (parameter set, bytes) only."""
     E = io.E
     ctx, R = E.ctx, E.R
 
     m, why = io.pc.decode_why(bs)
+    if prior is not None:
+        cls = cls + "|out=" + prior[0]
     if why in ("range", "noncanonical-sign", "neutral-as-point"):
         cls = cls + "|" + why
 
     def body(k):
         io.poison(io.P)
+        if prior is not None:
+            if prior[0] == "redecode":
+                R.call(io.read, io.P, E.put(prior[1]), len(prior[1]))
+            else:
+                io.put(io.P, prior[1], prior[2])
         pb = E.put(bs)
         n = len(bs)
         r = R.call(io.read, io.P, pb, n)
@@ -788,7 +847,84 @@ def read_case(io, cls, bs, member, note=None):
     d = {"bytes": bs[:140].hex(), "len": len(bs), "set": io.setname}
     if note:
         d["note"] = note
+    if prior is not None:
+        d["output-held"] = prior[0] if prior[0] == "redecode" else (
+            "neutral" if prior[1] is None else repr(prior[1])[:200] + " " + prior[2])
     E.case("%s|%s|%s" % (io.read, io.label, cls), d, body)
+
+
+def stale_output_cases(io, i, P, base, member, quick):
+    """the output object of the decoder already holds a valid object related to the bytes (the point the first
+    coordinate names, its negative, the neutral element, an unrelated point; written by the harness or left by the
+    library's own decode of the valid encoding): strings of every wrong length - in particular 1 + k*unit beyond the
+    longest encoding, 'tag | first coordinate | junk' and valid encodings with trailing bytes -, wrong tags, second
+    coordinates off the curve and mixed coordinates must still be refused, valid strings must still decode to what the
+    bytes say.  A decoder that skips a tag / length / coordinate on some path validates what was left in the object."""
+    E = io.E
+    rng = E.rng
+    pc = io.pc
+    C = pc.C
+    n = pc.n
+    full, pack = pc.encode(P, 0), pc.encode(P, 1)
+    negP = (P[0], C.neg_v(P[0], P[1]))
+    other = base[-1 - i]
+    ofull = pc.encode(other, 0)
+    heavy = i == 0 or not quick
+    priors = [("same", P, "affine"), ("neg", negP, "affine")]
+    if heavy:
+        priors += [("redecode", full, None), ("neutral", None, "affine"), ("other", other, "affine")]
+    if not quick:
+        priors += [("same-" + rep, P, rep) for rep in io.reps[1:]]
+    unit = getattr(io, "unit", n)                # granularity of the wire format (one base-field element)
+    kf = 2 * n // unit
+    ks = sorted(set([kf + 1, kf + 2, kf + 3, 2 * kf])) if quick else list(range(kf + 1, 3 * kf + 3))
+
+    def rnd(k):
+        return rng.getrandbits(8 * k).to_bytes(k, "big") if k > 0 else b""
+    for prior in priors:
+        # ---- beyond the longest encoding
+        for j, k in enumerate(ks):
+            ln = 1 + k * unit
+            tags = [4, pack[0], pack[0] ^ 1, 0, 7, 0xFF] if j == 0 else [4, rng.randrange(256)]
+            for tag in tags:
+                if E.mine():
+                    read_case(io, "len=1+k*unit>max|tag-u-junk", bytes([tag]) + full[1:1 + n] + rnd(ln - 1 - n), member, prior=prior)
+            if E.mine():
+                read_case(io, "len=1+k*unit>max|full-zero-ext", full + bytes(ln - len(full)), member, prior=prior)
+            if E.mine():
+                read_case(io, "len=1+k*unit>max|full-random-ext", full + rnd(ln - len(full)), member, prior=prior)
+            if j == 0 and E.mine():
+                read_case(io, "len=1+k*unit>max|full-v-repeated", (full + full[1 + n:] * k)[:ln], member, prior=prior)
+            if j == 0 and E.mine():
+                read_case(io, "len=1+k*unit>max|pack-zero-ext", pack + bytes(ln - len(pack)), member, prior=prior)
+        for ln in sorted(set([pc.len_full + 1, pc.len_full + 2, 2 * pc.len_full - 1, 2 * pc.len_full, 2 * pc.len_full + 1,
+                              (kf + 1) * unit, 2 * kf * unit, 2 + (kf + 1) * unit])):
+            if E.mine():
+                read_case(io, "len>max|full-random-ext", full + rnd(ln - len(full)), member, prior=prior)
+        # ---- legal lengths
+        for tag in (0, 1, 2, 3, 5, 0xFF, rng.randrange(6, 255)):
+            if E.mine():
+                read_case(io, "tag|full-length", bytes([tag]) + full[1:], member, prior=prior)
+        for tag in (0, 1, 4, 5, 0xFF, rng.randrange(6, 255)):
+            if E.mine():
+                read_case(io, "tag|pack-length", bytes([tag]) + pack[1:], member, prior=prior)
+        v = bytearray(full[1 + n:])
+        v[-1] ^= 1
+        for c, bs in (("off-curve-v", full[:1 + n] + bytes(v)), ("off-curve-v", full[:1 + n] + rnd(n)),
+                      ("mixed-coordinates", full[:1 + n] + ofull[1 + n:]), ("mixed-coordinates", ofull[:1 + n] + full[1 + n:]),
+                      ("valid-full", full), ("valid-pack", pack), ("sign-flipped", bytes([pack[0] ^ 1]) + pack[1:]),
+                      ("valid-full|negated", pc.encode(negP, 0)), ("valid-full|other", ofull), ("valid-pack|other", pc.encode(other, 1)),
+                      ("neutral", b"\x00"), ("tag|one-byte", b"\x04"), ("tag|one-byte", pack[:1]),
+                      ("len|pack-prefix", pack[:-1]), ("len|pack-prefix", pack + b"\x00"), ("len|pack-prefix", pack + bytes(n))):
+            if E.mine():
+                read_case(io, c, bs, member, prior=prior)
+        # ---- every length 0 .. max + 2
+        if heavy and (prior[0] == "same" or not quick):
+            for ln in range(0, pc.len_full + 3):
+                if E.mine():
+                    read_case(io, "len|full-prefix", (full + rnd(3))[:ln], member, prior=prior)
+                if not quick and E.mine():
+                    read_case(io, "len|pack-prefix", (pack + bytes(len(full)))[:ln], member, prior=prior)
 
 
 def write_case(io, cls, pt, rep):
@@ -889,6 +1025,7 @@ def point_suite(io, members, others, special, cof1, field_top, coord_vals, quick
                 read_case(io, "bitflip-pack", bytes(w), member)
         if i >= (2 if quick else 6):
             continue
+        stale_output_cases(io, i, P, base, member, quick)
         # every tag byte at the three legal lengths
         for tag in range(256):
             if E.mine():
@@ -1130,6 +1267,7 @@ class Ep2IO(PointIO):
 
     def __init__(self, E, pre, label, pc, F2):
         self.sz = E.R.K["sizeof_ep2_st"]
+        self.unit = E.R.K["RLC_FP_BYTES"]
         self.F2 = F2
         PointIO.__init__(self, E, pre, label, pc)
 
@@ -1434,9 +1572,9 @@ def run_eb(E):
         def fget(addr):
             return int.from_bytes(R.get(addr, nd), "little")
 
-        def fb_read(cls, bs):
+        def fb_read(cls, bs, prior=None):
             def body(k):
-                fput(x, (1 << (8 * nd)) - 1)
+                fput(x, (1 << (8 * nd)) - 1 if prior is None else prior)
                 pb = E.put(bs)
                 r = R.call("fb_read_bin", x, pb, len(bs))
                 v = int.from_bytes(bs, "big")
@@ -1464,6 +1602,16 @@ def run_eb(E):
         for ln in list(range(0, n + 3)) + [2 * n]:
             if ln != n and E.mine():
                 fb_read("len", (rng.getrandbits(m).to_bytes(n, "big") * 2)[n - min(ln, n):][:ln] if ln else b"")
+        for _ in range(ctx.n(2, 10)):              # the output already holds the element the bytes start / end with
+            v = rng.getrandbits(m)
+            vb = v.to_bytes(n, "big")
+            for ln in (0, 1, n - 1, n + 1, 2 * n - 1, 2 * n, 2 * n + 1, 3 * n, 4 * n):
+                if E.mine():
+                    fb_read("len|out=same", (vb + rng.getrandbits(8 * 3 * n).to_bytes(3 * n, "big"))[:ln], prior=v)
+                if ln > n and E.mine():
+                    fb_read("len|out=same", bytes(ln - n) + vb, prior=v)
+            if E.mine():
+                fb_read("reduced|random|out=other", vb, prior=rng.getrandbits(m))
 
         def fb_write(cls, v):
             def body(k):
@@ -1683,12 +1831,14 @@ def run_fp2_packed(E, name, F2):
             return None, "a1=0-bit1"
         return [a0, a1], "ok"
 
-    def rd(cls, bs):
+    def rd(cls, bs, prior=None):
         m, why = decode(bs)
 
         def body(k):
             R.fp_put_raw(x, top)
             R.fp_put_raw(x + R.fp_sz, top)
+            if prior is not None:
+                R.fpx_put(x, list(prior))
             pb = E.put(bs)
             r = R.call("fp2_read_bin", x, pb, len(bs))
             if m is None:
@@ -1747,6 +1897,19 @@ def run_fp2_packed(E, name, F2):
             for b in range(2, 256):
                 if E.mine():
                     rd("sign-byte", enc[:n] + bytes([b]))
+        if i < 2:
+            # a0 || sign || junk and truncations (2n is the unpacked length, not a wrong one), into an output that holds
+            # a poison pattern / the element itself / its conjugate
+            conj = (u[0], -u[1] % p)
+            for prior, tag in ((None, ""), (u, "|out=same"), (conj, "|out=conjugate")):
+                for ln in (0, 1, n - 1, n, n + 2, 2 * n - 1, 2 * n + 1, 2 * n + 2, 3 * n, 3 * n + 1, 4 * n, 4 * n + 1):
+                    if E.mine():
+                        rd("len" + tag, (enc + rng.getrandbits(8 * 4 * n).to_bytes(4 * n, "big"))[:ln], prior=prior)
+                if prior is not None:
+                    if E.mine():
+                        rd("valid" + tag, enc, prior=prior)
+                    if E.mine():
+                        rd("sign-flipped" + tag, enc[:n] + bytes([enc[n] ^ 1]), prior=prior)
     for _ in range(4 if ctx.quick else 20):
         if E.mine():
             wr("not-norm1", (rng.randrange(p), rng.randrange(p)), False)
@@ -1941,11 +2104,13 @@ def run_fp12_gt(E, name, F2):
             if E.mine():
                 wr("non-cyclotomic", fl, False)
 
-        def rd(cls, bs, expect, pre=pre):
+        def rd(cls, bs, expect, pre=pre, prior=None):
             """expect: flat list (must decode to it), 'reject', or 'may' (no demand on acceptance)"""
             def body(k):
                 for i in range(12):
                     R.fp_put_raw(x + i * R.fp_sz, top)
+                if prior is not None:
+                    R.fpx_put(x, prior)
                 pb = E.put(bs)
                 r = R.call(pre + "_read_bin", x, pb, len(bs))
                 if expect == "reject":
@@ -1994,6 +2159,26 @@ def run_fp12_gt(E, name, F2):
                 continue
             if E.mine():
                 rd("len", (enc_full(good[0] if good else one) * 3)[:ln], "reject")
+        if good:
+            # the output already holds the element the bytes start with (or another valid one)
+            g0, g1 = good[0], good[-1]
+            for ln in sorted(set([n, 4 * n, 8 * n - 1, 8 * n + 1, 9 * n, 10 * n, 12 * n - 1, 12 * n + 1, 13 * n, 16 * n, 20 * n, 24 * n, 36 * n])):
+                if E.mine():
+                    rd("len|full-ext|out=same", (enc_full(g0) * 3)[:ln], "reject", prior=g0)
+                if E.mine():
+                    rd("len|packed-ext|out=same", (enc_pack(g0) + enc_full(g1) * 3)[:ln], "reject", prior=g0)
+            if E.mine():
+                rd("packed|valid|out=other", enc_pack(g0), g0, prior=noncyc[0])
+            if E.mine():
+                rd("full|valid|out=other", enc_full(g0), g0, prior=noncyc[0])
+            if E.mine():
+                rd("packed|valid|out=same", enc_pack(g0), g0, prior=g0)
+            for pos in range(8):
+                if p + 1 <= top and E.mine():
+                    w = bytearray(enc_pack(g0))
+                    w[pos * n:(pos + 1) * n] = (int.from_bytes(w[pos * n:(pos + 1) * n], "big") + p).to_bytes(n, "big") \
+                        if int.from_bytes(w[pos * n:(pos + 1) * n], "big") + p <= top else p.to_bytes(n, "big")
+                    rd("packed|coef>=p|out=same", bytes(w), "reject", prior=g0)
     R.free(x)
     R.free(y)
     R.free(z)
